@@ -406,3 +406,72 @@ ris(3, 3, 1, {"C19": Q, "C16": T, "C01": T}, parked_rows=2, suffix="_parked2")
 ris(9, 2, 1, {"C19": T}, tabs_k="2", suffix="_tabs")
 ris(1, 1, 0, {"C19": T, "C01": Q}, sb=0)
 # (RIS with an unlimited scrollback is outside: Buffer::new reserves 1000 lines, which CBMC does not survive)
+
+
+# ----------------------------------------------------------------------------- resize (height only / glue), gc
+def resize_rows(cols, rows, new_rows, crow, props, sb=1, alt=0, limit="Some(1)", mem=8, parked=(0, 0), suffix=""):
+    kw = dict(sb=sb, alt=alt, limit=limit, crow=crow, parked_rows=parked[0], parked_sb=parked[1])
+    inst("rs__%dx%d_to%d_r%d_sb%d%s%s" % (cols, rows, new_rows, crow, sb, "_alt" if alt == 1 else "", suffix), "terminal",
+         "t_resize_rows(%s, %d)" % (tcfg(cols, rows, **kw), new_rows), max(cols, rows + sb + 3, new_rows + sb + 3, 14) + 2, props, mem=mem, timeout=1500,
+         desc="Terminal::resize(cols, %d) from %d rows (width unchanged), cursor on row %d: no line altered, only rows below the cursor dropped / blank rows added, "
+              "cursor stays on its line, region reset, saved position clamped, parked screen untouched, InvT" % (new_rows, rows, crow),
+         bounds=geo_desc(cols, rows, **kw), optional_covers=["alternate screen"] if alt == 0 else [])
+
+
+for (rows, new, crow, sb) in ((3, 2, 2, 1), (3, 2, 0, 1), (2, 3, 1, 1), (2, 3, 0, 0), (1, 3, 0, 2), (3, 1, 1, 0), (3, 1, 2, 1), (3, 1, 0, 1),
+                              (2, 2, 1, 1), (3, 2, 1, 0), (2, 4, 1, 1), (4, 2, 1, 0), (4, 2, 3, 1), (1, 2, 0, 0), (2, 1, 0, 1), (2, 1, 1, 1)):
+    quick = (rows, new, crow, sb) in ((3, 2, 2, 1), (3, 2, 0, 1), (2, 3, 1, 1), (1, 3, 0, 2), (3, 1, 1, 0))
+    resize_rows(2, rows, new, crow, {"C10": Q if quick else T, "C02": Q if (rows, new, crow) in ((3, 2, 0), (2, 3, 1)) else T, "C13": T, "C17": Q if (rows, new, crow) == (3, 1, 1) else T,
+                                      "C15": Q if (rows, new, crow) == (2, 3, 1) else T, "C05": T, "C06": T, "C01": Q if (rows, new) in ((1, 3), (3, 1)) and quick else T}, sb=sb)
+resize_rows(2, 3, 2, 1, {"C16": Q, "C02": T, "C10": T}, sb=0, alt=1, parked=(3, 1), suffix="_parked3")
+resize_rows(2, 2, 3, 1, {"C16": Q, "C02": T}, sb=0, alt=1, parked=(2, 1), suffix="_parked2")
+
+
+def resize_glue(cols, rows, new_cols, new_rows, props, tabs_k="SYM", mem=6):
+    kw = dict(sb=0, alt=2, limit="Some(1)", tabs_k=tabs_k, fill="Fill::Blank")
+    inst("rg__%dx%d_to_%dx%d%s" % (cols, rows, new_cols, new_rows, "" if tabs_k == "SYM" else "_k%s" % tabs_k), "terminal",
+         "t_resize_glue(%s, %d, %d)" % (tcfg(cols, rows, **kw), new_cols, new_rows), max(cols, new_cols) // 8 + max(rows, new_rows) + 12, props, mem=mem,
+         stubs=[("crate::buffer::Buffer::resize", "crate::buffer::Buffer::kv_resize_contract")],
+         desc="Terminal::resize %dx%d -> %dx%d with Buffer::resize replaced by its contract: tab stops contracted / expanded with the right arguments, wrap-pending dropped, "
+              "region kept on a width-only change, saved position clamped, changed rows" % (cols, rows, new_cols, new_rows),
+         bounds="%dx%d -> %dx%d, either screen, %s" % (cols, rows, new_cols, new_rows, "default tab stops" if tabs_k == "SYM" else "any %s tab stops" % tabs_k))
+
+
+for (cols, rows, nc, nr, k, quick) in ((8, 2, 17, 2, "SYM", True), (16, 2, 9, 2, "SYM", True), (9, 3, 20, 2, "2", True), (20, 2, 9, 3, "3", False),
+                                       (16, 2, 24, 2, "1", False), (7, 2, 8, 2, "SYM", False), (8, 2, 9, 2, "SYM", False), (24, 2, 8, 2, "SYM", False), (1, 1, 2, 1, "SYM", False)):
+    resize_glue(cols, rows, nc, nr, {"C18": Q if quick else T, "C17": Q if quick and k == "2" else T, "C05": Q if (cols, nc) == (8, 17) else T,
+                                      "C06": Q if k == "2" else T, "C02": T, "C15": T, "C04": T}, tabs_k=k)
+
+
+def gc(cols, rows, sb, limit, alt, drain, props, mem=8, tn=True):
+    kw = dict(sb=sb, alt=alt, limit=limit)
+    inst("gc__%dx%d_sb%d_l%s_%s_%s%s" % (cols, rows, sb, limit.replace("Some(", "").replace(")", "").lower(), "alt" if alt else "pri", "drain" if drain else "drop", "" if tn else "_noflag"), "terminal",
+         "t_gc(%s, %s, %s)" % (tcfg(cols, rows, **kw), "true" if drain else "false", "true" if tn else "false"), max(cols, rows + sb, 14) + 3, props, mem=mem, timeout=1500,
+         desc="changes() then gc() with %d scrollback line(s), limit %s, %s screen, iterator %s: exactly the oldest lines beyond the soft limit leave, in order and unchanged; "
+              "retention bound; view, cursor, modes unchanged" % (sb, limit, "alternate" if alt else "primary", "drained" if drain else "dropped unconsumed"),
+         bounds=geo_desc(cols, rows, **kw),
+         optional_covers=["something is trimmed", "nothing is trimmed"])
+
+
+GC_SET = []
+for limit, sbs in (("Some(0)", (0, 1, 2)), ("Some(1)", (0, 1, 2, 3)), ("Some(3)", (3, 4, 5)), ("Some(10)", (11, 12, 13)), ("None", (0, 2))):
+    for sb in sbs:
+        for drain in (True, False):
+            GC_SET.append((limit, sb, 0, drain))
+for sb in (0, 1, 2):
+    for drain in (True, False):
+        GC_SET.append(("Some(3)", sb, 1, drain))
+for (limit, sb, alt, drain) in GC_SET:
+    quick13 = (limit, sb, alt) in (("Some(0)", 2, 0), ("Some(1)", 2, 0), ("Some(10)", 12, 0), ("Some(3)", 2, 1)) and drain
+    quick14 = (limit, sb, alt, drain) in (("Some(1)", 3, 0, True), ("Some(1)", 3, 0, False), ("Some(3)", 5, 0, True), ("Some(3)", 1, 1, True))
+    quick12 = (limit, sb, alt, drain) in (("None", 2, 0, False), ("Some(1)", 2, 0, True), ("Some(3)", 1, 1, False))
+    gc(2, 2, sb, limit, alt, drain, {"C13": Q if quick13 else T, "C14": Q if quick14 else T, "C12": Q if quick12 else T, "C15": T, "C02": T, "C01": T})
+
+for (cols, rows) in ((2, 3), (1, 1), (2, 4)):
+    inst("changes__%dx%d" % (cols, rows), "terminal", "t_changes(%s)" % tcfg(cols, rows, sb=1, alt=2, limit="Some(1)"), max(cols, rows + 1) + 3,
+         {"C15": Q if rows == 3 else T, "C02": Q if rows == 3 else T, "C12": Q if rows == 3 else T, "C01": T}, mem=6,
+         desc="Terminal::changes() with any flags: exactly the flagged rows, strictly increasing, < rows; flags cleared; nothing else changes",
+         bounds="%dx%d, any flag pattern" % (cols, rows))
+
+gc(2, 2, 1, "Some(1)", 0, True, {"C13": T, "C14": T, "C12": Q}, tn=False)
+gc(2, 2, 0, "Some(0)", 1, False, {"C13": T, "C12": T}, tn=False)
